@@ -27,7 +27,7 @@ impl<'a> System for Sys<'a> {
     fn key(&self, vt: &Vt) -> u128 {
         fingerprint(vt)
     }
-    fn on_state(&self, cfg: &Cfg, _h: &[&Op], vt: &mut Vt, rebuild: &dyn Fn() -> Vt, out: &mut Out) {
+    fn on_state(&self, cfg: &Cfg, hist: &[&Op], vt: &mut Vt, rebuild: &dyn Fn() -> Vt, out: &mut Out) {
         let size = vt.size();
         out.count("states_reset");
         let fresh = || build_vt(size.0, size.1, cfg.limit);
@@ -75,6 +75,33 @@ impl<'a> System for Sys<'a> {
         let _ = s3.feed_str("");
         if obs_full(&s3) != obs_full(&fresh()) || s3.dump() != db {
             out.violate("C19", "ris-per-char", "ESC c fed with feed() differs from a fresh terminal".into());
+            return;
+        }
+        // the whole history through feed() (which never trims), ESC c through feed(), and
+        // the comparison made at once - before any feed_str call could tidy up
+        let mut s4 = cfg.build();
+        for op in hist {
+            match op.cmd {
+                Cmd::Resize(c, r) => {
+                    let _ = s4.resize(c, r);
+                }
+                _ => {
+                    for ch in op.text.chars() {
+                        s4.feed(ch);
+                    }
+                }
+            }
+        }
+        s4.feed('\x1b');
+        s4.feed('c');
+        out.count("comparisons");
+        let (a, b) = (obs_full(&s4), obs_full(&fresh()));
+        if a != b {
+            out.violate(
+                "C19",
+                "ris-after-feed-only-history",
+                format!("history and ESC c fed with feed(): lines() {:?} cursor {:?}; fresh: {:?} cursor {:?}", a.rows, a.cursor, b.rows, b.cursor),
+            );
         }
     }
 }
@@ -202,6 +229,47 @@ fn parser_residue(ctx: &Ctx, rep: &mut Report) {
     }
 }
 
+/// ESC c on screens at and beyond the 16-bit boundary
+fn extreme_sizes(ctx: &Ctx, rep: &mut Report) {
+    let sizes: &[(usize, usize)] = &[(2, 65535), (2, 65536), (2, 65537), (2, 65538), (2, 70000), (65537, 2), (70000, 2), (300, 300)];
+    let conts = ["", "\n\n\nx", "\x1b[99999;1Hx\ny", "\x1b[3;1H\x1bMz", "\x1b[5;5Hq\x1b[2J"];
+    let mut n = 0u64;
+    for &(c, r) in sizes {
+        for cont in conts {
+            let res = crate::engine::guarded(|| {
+                let mut vt = build_vt(c, r, None);
+                let _ = vt.feed_str("ab\x1b[2;5r\x1b[?6h\x1b[1;31mcd\x1b7\x1bH");
+                let _ = vt.feed_str("\x1bc");
+                let _ = vt.feed_str(cont);
+                let mut f = build_vt(c, r, None);
+                let _ = f.feed_str(cont);
+                if obs(&vt) != obs(&f) {
+                    return Some(format!("cursor {:?} vs fresh {:?} (or the visible rows differ)", obs(&vt).cursor, obs(&f).cursor));
+                }
+                if vt.dump() != f.dump() {
+                    return Some("dump() differs from the fresh terminal's".to_string());
+                }
+                None
+            });
+            n += 1;
+            let bad = match res {
+                Ok(None) => None,
+                Ok(Some(d)) => Some(d),
+                Err(p) => Some(format!("panic: {}", p)),
+            };
+            if let Some(d) = bad {
+                emit_violation(ctx, rep, "C19", serde_json::json!({"part":"extreme-sizes","size":[c, r],"input":esc(cont),"input_raw":cont,"oracle":"ris-vs-fresh","observed":format!("{}x{}: ESC c then {}: {}", c, r, esc(cont), d)}));
+                rep.parts.push(serde_json::json!({"part":"extreme-sizes","cases":n}));
+                return;
+            }
+        }
+    }
+    rep.evaluations += n;
+    rep.traces_validated += n;
+    rep.parts.push(serde_json::json!({"part":"extreme-sizes","sizes":sizes.len(),"cases":n}));
+    println!("part extreme-sizes: {} cases", n);
+}
+
 pub fn run(ctx: &Ctx) -> Report {
     let mut rep = Report::new();
     let sa = Sys { conts: &conts_full };
@@ -213,6 +281,7 @@ pub fn run(ctx: &Ctx) -> Report {
     rep.evaluations += cmp;
     rep.traces_validated = cmp;
     parser_residue(ctx, &mut rep);
+    extreme_sizes(ctx, &mut rep);
     rep.rule = "BFS over op histories (same alphabet as C11 incl. truncated sequences and resizes); at EVERY distinct state ESC c is applied and the result compared with a freshly built terminal of the current size and limit: all of lines(), cursor, cursor-key mode, dump(), then again after each probe of the battery and after every feed op of the alphabet; plus the parser side: every string of <= 3/4 parameter, sub-parameter, marker, intermediate and final bytes after each of six introducers, then ESC c, then every continuation of the battery and 22 parameter-sensitive ones, compared with a fresh terminal given the continuation alone".into();
     rep.assumptions = vec!["equivalence is observational (public API) plus dump() equality".into()];
     rep
@@ -224,6 +293,11 @@ pub fn replay(ctx: &Ctx, v: &Value) -> bool {
     let sb = Sys { conts: &conts_deep };
     let (full, deep) = parts!(tier, &sa, &sb);
     match v["part"].as_str().unwrap_or("") {
+        "extreme-sizes" => {
+            let mut rep = Report::new();
+            extreme_sizes(ctx, &mut rep);
+            rep.violations > 0
+        }
         "parser-residue" => {
             let r = v["input_raw"].as_str().unwrap_or("").to_string();
             let mut rep = Report::new();
